@@ -332,6 +332,8 @@ macro_rules! modlist_mask_template {
 }
 modlist_mask_template!(c13_q_modlist_mask_two, mask_two, b"psk?+psk?", 12, true);
 modlist_mask_template!(c13_q_modlist_mask_three, mask_three, b"psk?+psk?+psk?", 16, true);
+// one hole only: the cheapest query that still separates "duplicate anywhere" from "duplicate of the neighbour"
+modlist_mask_template!(c13_q_modlist_mask_aba, mask_aba, b"psk1+psk2+psk?", 16, true);
 modlist_mask_template!(c13_q_modlist_mask_empty_mid, mask_e1, b"psk?++psk?", 12, false);
 modlist_mask_template!(c13_q_modlist_mask_empty_first, mask_e2, b"+psk?", 12, false);
 modlist_mask_template!(c13_t_modlist_mask_empty_last, mask_e3, b"psk?+", 12, false);
@@ -425,12 +427,14 @@ choice_mask_template!(c13_q_choice_mask_three, mask_c4, b"X1X1psk?+psk?+psk?", 2
 choice_mask_template!(c13_q_choice_mask_fallback, mask_c6, b"XXfallbac?+psk?", 18);
 
 /// The real `NoiseParams::from_str` on whole-name templates: accepted iff the grammar accepts; the parsed value keeps
-/// the input verbatim and names exactly the components the fields name. Only templates whose symbolic decision is a
-/// REJECTION inside the five-way split finish (minutes); a whole name with a symbolic accept/reject decision in a field
-/// does not finish in 10 minutes even with concrete separators (the error paths drop a String and a Vec under a
-/// symbolic condition) - those stay outside what is decided, see DESIGN.md.
+/// the input verbatim and names exactly the components the fields name. Holes may sit anywhere except inside the
+/// pattern name (a symbolic pattern/modifier boundary makes every later slice boundary symbolic: out of memory).
 macro_rules! name_mask_template {
     ($name:ident, $stubmod:ident, $tmpl:expr, $unw:expr, $both:expr) => {
+        name_mask_template!($name, $stubmod, $tmpl, $unw, $both, false);
+    };
+    // $digits: holes are decimal digits (templates every filling of which is a valid name: one witness, acceptance)
+    ($name:ident, $stubmod:ident, $tmpl:expr, $unw:expr, $both:expr, $digits:expr) => {
         sep_stub!($stubmod, $tmpl);
         #[kani::proof]
         #[kani::unwind($unw)]
@@ -438,30 +442,43 @@ macro_rules! name_mask_template {
         pub fn $name() {
             const T: &[u8] = $tmpl;
             let b = fill($tmpl);
+            if $digits {
+                let mut i = 0;
+                while i < T.len() {
+                    if T[i] == b'?' {
+                        kani::assume(b[i] >= b'0' && b[i] <= b'9');
+                    }
+                    i += 1;
+                }
+            }
             let s = unsafe { core::str::from_utf8_unchecked(&b) };
             let r: Result<NoiseParams, Error> = s.parse();
-            let want = grammar::name_ok(&b);
+            // Reference verdict. The '_' structure of the input is the template's (holes are not separators), so the
+            // fields are cut at the template's concrete positions; each field goes through its byte-level recogniser.
+            // (Scanning the symbolic bytes for '_' again inside the oracle - grammar::name_ok - is what made these
+            // harnesses exceed 10 minutes; snow's side of the query was never the bottleneck.)
+            let mut bounds = [0usize; 8];
+            let mut nb = 1;
+            let mut i = 0;
+            while i < T.len() {
+                if T[i] == b'_' && nb < 7 {
+                    bounds[nb] = i + 1;
+                    nb += 1;
+                }
+                i += 1;
+            }
+            let nfields = nb;
+            bounds[nb] = T.len() + 1;
+            let f = |k: usize| &b[bounds[k]..bounds[k + 1] - 1];
+            let want = nfields == 5 && grammar::is_base(f(0)) && grammar::handshake(f(1)).is_some() && grammar::dh(f(2)).is_some() && grammar::cipher(f(3)).is_some() && grammar::hash(f(4)).is_some();
             // templates that no filling makes valid have one witness (rejection), the others two
             kani::cover!(r.is_ok() || !$both, "C13 name template accepted reachable");
-            kani::cover!(r.is_err() && !want, "C13 name template rejected reachable");
+            kani::cover!((r.is_err() && !want) || $digits, "C13 name template rejected reachable");
             assert!(r.is_ok() == want, "C13: protocol name accepted iff it has the form Noise_<handshake>_<dh>_<cipher>_<hash>");
             assert!(r.is_ok() || is_pattern_err(&r), "C13: rejection must be a pattern error");
             if let Ok(p) = r {
                 assert!(p.name.as_bytes() == &b[..], "C13: the parsed value does not preserve the name verbatim");
                 assert!(p.base == BaseChoice::Noise, "C13: base component");
-                // field boundaries are those of the template (concrete)
-                let mut bounds = [0usize; 6];
-                let mut nb = 1;
-                let mut i = 0;
-                while i < T.len() {
-                    if T[i] == b'_' && nb < 5 {
-                        bounds[nb] = i + 1;
-                        nb += 1;
-                    }
-                    i += 1;
-                }
-                bounds[5] = T.len() + 1;
-                let f = |k: usize| &b[bounds[k]..bounds[k + 1] - 1];
                 match grammar::handshake(f(1)) {
                     Some((pat, w, n)) => {
                         assert!(p.handshake.pattern.as_str().as_bytes() == pat.name().as_bytes(), "C13: parsed pattern differs from the named one");
@@ -481,5 +498,10 @@ macro_rules! name_mask_template {
     };
 }
 name_mask_template!(c13_q_name_mask_extra_field, mask_n3, b"Noise_NN_25519_AESGCM_SHA512_?", 33, false);
-name_mask_template!(c13_t_name_mask_too_few, mask_n4, b"Noise_NN_25519_AESGC?", 24, false);
-name_mask_template!(c13_t_name_mask_empty_field, mask_n6, b"Noise_NN__AESGCM_SHA25?", 26, false);
+name_mask_template!(c13_q_name_mask_too_few, mask_n4, b"Noise_NN_25519_AESGC?", 24, false);
+name_mask_template!(c13_q_name_mask_empty_field, mask_n6, b"Noise_NN__AESGCM_SHA25?", 26, false);
+name_mask_template!(c13_q_name_mask_psk_digit, mask_n9, b"Noise_NNpsk?_25519_AESGCM_SHA256", 36, true, true);
+name_mask_template!(c13_q_name_mask_psk, mask_n1, b"Noise_XXpsk?+psk?_25519_ChaChaPoly_SHA256", 44, true);
+name_mask_template!(c13_q_name_mask_fields, mask_n2, b"Noise_NN_2551?_AESGC?_SHA51?", 31, true);
+name_mask_template!(c13_q_name_mask_base, mask_n5, b"Nois?_NN_448_AESGCM_BLAKE2?", 30, true);
+name_mask_template!(c13_q_name_mask_last_field, mask_n0, b"Noise_NNpsk0+psk2_25519_AESGCM_SHA51?", 40, true);
